@@ -19,4 +19,26 @@ def registry():
              requires={'len': '1 <= counter_len and counter_len <= 16', 'amount': 'amount <= 255'},
              ensures={'value': '%s(pCounter, counter_len, 16) == (old(%s(pCounter, counter_len, 16)) + amount) %% pow2(8 * counter_len, 128)' % (fn, fn)},
              loops={0: dict(unroll=16)})
+
+    # ------------------------------------------------------------------ counter blocks
+    R.define('ctrval(p, n, big)', 'be(p, n, 16) if big else le(p, n, 16)')
+    R.define('outside(t, prefix_len, n)', 't < prefix_len or t >= prefix_len + n')
+    cfgs_ccb = [{'name': '%s%d' % (e, bl), 'funcptr': {'increment': 'increment_' + e}, 'set': {'block_len': bl}}
+                for e in ('be', 'le') for bl in (16, 8)]
+    R.fn('create_counter_blocks', regions={'counter_block0': 'u8[block_len]'}, allocates=True,
+         alloc_result='u8[block_len * 8]', configs=cfgs_ccb, escapes=['result'],
+         loops={0: dict(invariants={
+             'cursor': 'i <= 7 and offset(current) == (i + 1) * block_len and offset(counter_blocks) == 0',
+             'template': 'all((k < (i + 1) * block_len and outside(k % block_len, prefix_len, counter_len)) ==> '
+                         'counter_blocks[k] == counter_block0[k % block_len] for k in range(8 * block_len))',
+             'counters': 'all(j <= i ==> ctrval(counter_blocks + j * block_len + prefix_len, counter_len, big) == '
+                         '(ctrval(counter_block0 + prefix_len, counter_len, big) + j) % pow2(8 * counter_len, 128) for j in range(8))'},
+             decreases='7 - i')},
+         logical={'big': 'increment == increment_be'},
+         requires={'geometry': '1 <= counter_len and counter_len <= 16 and prefix_len + counter_len <= block_len',
+                   'increment': 'increment == increment_be or increment == increment_le'},
+         ensures={'template': 'not null(result) ==> all(outside(k % block_len, prefix_len, counter_len) ==> '
+                              'result[k] == counter_block0[k % block_len] for k in range(8 * block_len))',
+                  'counters': 'not null(result) ==> all(ctrval(result + j * block_len + prefix_len, counter_len, big) == '
+                              '(ctrval(counter_block0 + prefix_len, counter_len, big) + j) % pow2(8 * counter_len, 128) for j in range(8))'})
     return R
